@@ -61,6 +61,9 @@ func (g *c02Gen) scalar() scen.Arg {
 		g.nrl++
 		return scen.Arg{K: "relog", I: int64(g.relog), S: tok(50000 + g.nrl)}
 	}
+	if r.Chance(1, 30) {
+		return scen.Arg{K: "ustruct", I: int64(r.Intn(1000)), S: "h"}
+	}
 	switch r.Intn(34) {
 	case 0:
 		return scen.Arg{K: "nil"}
@@ -586,6 +589,10 @@ func (p *C02) Check(sc *scen.Scenario, run *orch.Run, env *orch.Env) []orch.Viol
 			}
 			byW[w.W] = append(byW[w.W], w)
 		}
+		nOwn := 0
+		for _, evs := range byW {
+			nOwn += len(evs)
+		}
 		want := reg.Admitted(ls.Level, op.Lvl, debug)
 		sel, sure := ws.Select(reg, op.Lvl)
 		mode := ""
@@ -594,12 +601,14 @@ func (p *C02) Check(sc *scen.Scenario, run *orch.Run, env *orch.Env) []orch.Viol
 		}
 		switch {
 		case want == model.Deny:
-			if len(o.Writes) > 0 {
-				add("C02.unadmitted-write", "entry="+op.Entry+mode, "%s at %s on a logger at %s is not admitted but %d Write(s) happened", op.Entry, model.LevelName(op.Lvl), model.LevelName(ls.Level), len(o.Writes))
+			// (a value that logs from inside String() may be evaluated before the gate is asked, as Println does
+			// with its first argument: its record is another call's, on the nested logger's own destination)
+			if nOwn > 0 {
+				add("C02.unadmitted-write", "entry="+op.Entry+mode, "%s at %s on a logger at %s is not admitted but %d Write(s) happened", op.Entry, model.LevelName(op.Lvl), model.LevelName(ls.Level), nOwn)
 			}
 			return
 		case want == model.Unknown:
-			if len(o.Writes) == 0 {
+			if nOwn == 0 {
 				return
 			}
 		}
